@@ -212,7 +212,18 @@ def one_upload(g, data, secret, variant):
             EncryptAnUploadable.CHUNKSIZE = variant["chunk"]
         os.urandom = rec
         src = make_source(g, data, secret, variant)
-        b = g.wait(g.clients[0].upload(src))
+        saved = dict(g.clients[0].encoding_params)
+        if variant.get("override"):
+            # the parameters of THIS upload are set on the uploadable (IUploadable's own k/happy/N/segment size
+            # override what the client is configured with); the client gets different defaults meanwhile
+            src.encoding_param_k, src.encoding_param_n = saved["k"], saved["n"]
+            src.encoding_param_happy, src.max_segment_size = saved["happy"], saved["max_segment_size"]
+            g.clients[0].encoding_params.update(variant["override"])
+        try:
+            b = g.wait(g.clients[0].upload(src))
+        finally:
+            g.clients[0].encoding_params.clear()
+            g.clients[0].encoding_params.update(saved)
         g.quiesce()
         if not b:
             out["err"] = "hang"
@@ -277,6 +288,11 @@ def std_variants():
             out.append({"source": src, "chunk": chunk})
         for c in (1, 7, 4096):
             out.append({"source": "shortfh", "c": c, "chunk": chunk})
+    # the same parameters given per upload (on the uploadable) while the client is configured otherwise
+    for src in ("data", "filehandle"):
+        out.append({"source": src, "chunk": None, "override": {"max_segment_size": 33}})
+        out.append({"source": src, "chunk": None, "override": {"max_segment_size": 1024 * 1024}})
+        out.append({"source": src, "chunk": None, "override": {"k": 1, "n": 1, "max_segment_size": 49}})
     return out
 
 
@@ -599,6 +615,6 @@ def run(tier, seed):
 MANIFEST = {
     "engine": "E",
     "technique": "exhaustive enumeration of upload sources, read chunkings and parameter neighbours on the real uploader over a virtual grid (default schedule), judged against a hashlib-only reference of the convergent key",
-    "text": "Every (size, secret, k, N, segment size) of a boundary-focused grid is uploaded from Data and then from every other source kind (FileHandle, FileName, short-reading file objects, a custom IUploadable answering now or from a later reactor turn) under EncryptAnUploadable.CHUNKSIZE 1/7/default; for selected files the custom uploadable answers read(n) with every composition into <= 3 pieces, applied to all calls and to each call alone. Caps must be byte-identical, the key and storage index must equal an independent hashlib reference, every pair of cases differing in exactly one of secret/k/N/segment size must have different storage indexes, <= 55 bytes must give a LIT cap embedding the data with zero remote calls, and random-key uploads must use a fresh 16-byte os.urandom draw.",
+    "text": "Every (size, secret, k, N, segment size) of a boundary-focused grid is uploaded from Data and then from every other source kind (FileHandle, FileName, short-reading file objects, a custom IUploadable answering now or from a later reactor turn) under EncryptAnUploadable.CHUNKSIZE 1/7/default; and with the parameters given on the uploadable itself while the client is configured with others; for selected files the custom uploadable answers read(n) with every composition into <= 3 pieces, applied to all calls and to each call alone. Caps must be byte-identical, the key and storage index must equal an independent hashlib reference, every pair of cases differing in exactly one of secret/k/N/segment size must have different storage indexes, <= 55 bytes must give a LIT cap embedding the data with zero remote calls, and random-key uploads must use a fresh 16-byte os.urandom draw.",
     "note": "Alphabets in ASSUMPTIONS; all os.urandom output is the scripted stream of vt.boot; uploads run at the default delivery order on honest servers.",
 }
